@@ -87,6 +87,16 @@ claim("C07",
       "Elections, leadership transfer, node restart from a raft snapshot, the gossip hand-over of forwarded writes, more than one replica and concurrent application on replicas are outside the model. Known finding: relative expirations are applied with each node's own clock. Bounds in the evidence assumptions.",
       "DESIGN.md C07")
 
+claim("C03",
+      "The real snapshot engine runs over a modelled file system (package os intercepted; encoding/json and md5 modelled/computed) and the real server over the same: for every value type, three databases and deadlines before the snapshot / between snapshot and restart / after the restart, what TakeSnapshot writes Restore gives back (keys, types, values, deadlines) minus expired keys, LASTSAVE follows the snapshot taken and restored; histories of snapshots with and without new data keep the in-progress flag balanced and restart on the last snapshot; at server level SAVE, restart through the real constructor, LASTSAVE and the automatic snapshot (threshold 3, 0..6 writes, ticker fired by the harness) are checked; the expired-key filter is checked per database for arbitrary instants and map orders.",
+      "Known finding: integers, lists, sets and sorted sets are re-typed or emptied by the JSON snapshot. Datasets are concrete (md5 of symbolic content is not modelled); snapshots taken while writers are active are covered only through C05's lock-order check of getState. Bounds in the evidence assumptions.",
+      "DESIGN.md C03")
+
+claim("C10",
+      "The real TakeSnapshot is crashed before each of its mutating file operations (directory creation, state file create/write/sync, manifest create/write/sync/rename) after 0, 1 or 2 complete snapshots; after the reboot - unsynced bytes survive as a solver-chosen prefix - a fresh engine must restore the complete previous or the complete new snapshot without failing, LASTSAVE must match, and the next snapshot on the same directory must succeed and be restorable. Attempts that find nothing new or fail (snapshot directory or temporary manifest name occupied) must leave the previous snapshot, LASTSAVE and the in-progress flag untouched. Counterexamples are replayed against the real code compiled against a counting shim of package os over a real temporary directory.",
+      "Metadata operations (create, mkdir, rename, truncate) are taken as durable at once; directory fsync and fsync lies are outside the model. Datasets are concrete. Bounds in the evidence assumptions.",
+      "DESIGN.md C10")
+
 # every property without a claim is listed as not applicable (yet) with its reason
 NA_REASONS = {}
 for n in range(1, 21):
